@@ -41,7 +41,7 @@ def gen_cases(seed, tier):
     cases = []
     for i in range(n):
         cfg = work_raw.gen_config(rng, tier, i=i)
-        mode = ['plain', 'partition', 'twice', 'direct'][i % 4] if i % 3 else 'partition'
+        mode = common.stratum(i, 1, ['plain', 'partition', 'twice', 'direct', 'partition', 'partition'])
         cases.append(dict(cfg=cfg, mode=mode))
     return cases
 
